@@ -15,7 +15,6 @@ import (
 	"sync"
 	"testing"
 	"time"
-	"unicode/utf8"
 
 	"github.com/ethereum/go-ethereum/common"
 	"pgregory.net/rapid"
@@ -331,7 +330,6 @@ func TestC19_ContractBytes(t *testing.T) {
 		r.Label("contract:token=" + tokenKind)
 		r.Label("contract:parts=" + parts)
 		r.LabelN("contract:emitted_bytes", len(b))
-		_ = utf8.ValidString
 		r.Case(tokenKind+"|"+parts+"|"+cl.key(), len(cl) > 0, desc)
 	})
 }
